@@ -443,7 +443,7 @@ class IDView(Mapping, Set):
                     dups.extend(sorted(edges)[1:])
                 except TypeError:
                     dups.extend(edges[1:])
-        return self.__class__.from_view(self, bunch=dups)
+        return self.__class__.from_view(self, bunch=self._own(dups))
 
     def lookup(self, neighbors):
         """Find IDs with the specified bipartite neighbors.
@@ -487,7 +487,18 @@ class IDView(Mapping, Set):
         """
         sought = set(neighbors)
         found = [idx for idx in self._id_dict if self._bi_ids(idx) == sought]
-        return self.__class__.from_view(self, bunch=found)
+        return self.__class__.from_view(self, bunch=self._own(found))
+
+    def _own(self, ids):
+        """Those of `ids` that this view keeps track of.
+
+        The queries that search the whole network (`duplicates`, `lookup`,
+        `isolates`, `maximal`) answer, like `filterby`, with IDs of this view only.
+        """
+        if self._ids is self._id_dict:
+            return ids
+        own = set(self._ids)
+        return [i for i in ids if i in own]
 
     def _bi_ids(self, idx):
         """The bipartite neighbors of an ID of this view, as a set.
@@ -639,7 +650,7 @@ class NodeView(IDView):
                     continue
                 nodes_in_edges = nodes_in_edges.union(members)
             isolates = set(self._id_dict) - nodes_in_edges
-            return self.from_view(self, bunch=isolates)
+            return self.from_view(self, bunch=self._own(isolates))
         else:
             return self.filterby("degree", 0)
 
@@ -821,7 +832,7 @@ class EdgeView(IDView):
                     if containing(e) == set(dups[frozenset(e)]):
                         max_edges.update(dups[frozenset(e)])
 
-        return self.from_view(self, bunch=max_edges)
+        return self.from_view(self, bunch=self._own(max_edges))
 
 
 class DiNodeView(IDView):
